@@ -232,7 +232,7 @@ where
     Ok(out)
 }
 
-fn roundtrip<M: Marker + Component>(spec: &WorldSpec) -> Result<(), String>
+fn roundtrip<M: Marker + Component>(spec: &WorldSpec) -> Result<String, String>
 where
     M::Storage: Default,
     M::Allocator: Default,
@@ -358,7 +358,13 @@ where
     if total != src_desc.len() + 1 {
         return Err(format!("extra-entities: the loaded world has {} entities, expected {} transferred + 1 pre-existing", total, src_desc.len()));
     }
-    Ok(())
+    // transcript for the determinism check: the serialised bytes and the loaded handles in join order
+    let handles: Vec<(u32, i32, String)> = {
+        let ents = dst.entities();
+        let markers = dst.read_storage::<M>();
+        (&ents, &markers).join().map(|(e, m)| (e.id(), e.gen().id(), format!("{:?}", m.id()))).collect()
+    };
+    Ok(format!("{}|{:?}", text, handles))
 }
 
 fn permutations(n: usize) -> Vec<Vec<usize>> {
@@ -380,12 +386,34 @@ fn permutations(n: usize) -> Vec<Vec<usize>> {
     out
 }
 
-fn run_spec(spec: &WorldSpec) -> Result<(), String> {
+pub fn run_spec(spec: &WorldSpec) -> Result<String, String> {
     let r = catch(|| if spec.uuid { roundtrip::<UuidMarker>(spec) } else { roundtrip::<SM>(spec) });
     match r {
         Ok(x) => x,
         Err(m) => Err(format!("panic: unexpected panic during the round trip: {}", m)),
     }
+}
+
+/// The (marked, pa, pb, link, link2) part of every C14 world with `n` entities.
+pub fn c14_bases(n: usize) -> Vec<(u32, u32, u32, Vec<usize>, Vec<usize>)> {
+    let mut bases = vec![];
+    let graphs = (n + 1usize).pow(n as u32);
+    for marked in 0..(1u32 << n) {
+        for pa in 0..(1u32 << n) {
+            for g in 0..graphs {
+                let mut link = vec![];
+                let mut c = g;
+                for _ in 0..n {
+                    link.push(c % (n + 1));
+                    c /= n + 1;
+                }
+                let pb = ((g as u32) ^ marked ^ (pa << 1)) & ((1 << n) - 1);
+                let l2: Vec<usize> = (0..n).map(|i| (g / (i + 1) + pa as usize + i) % (n + 1)).collect();
+                bases.push((marked, pa, pb, link, l2));
+            }
+        }
+    }
+    bases
 }
 
 fn c14(cli: &Cli) -> ! {
